@@ -333,7 +333,7 @@ theorem serverTurn_gone_or_silent (c : Conn) (v : Verb) (n : Nat) (h : (c.srvGon
     ∃ e, (c.serverTurn v n).2 = .error e := by
   unfold Conn.serverTurn
   by_cases hg : c.srvGone = true
-  · exact ⟨.eof, by simp [hg]⟩
+  · exact ⟨c.broken.getD .eof, by simp [hg]⟩
   · have hs : c.srvSilent = true := by simpa [hg] using h
     exact ⟨if c.armed then .timeout else .blocked, by simp [hg, hs, Conn.waitSilent]⟩
 
